@@ -1,6 +1,6 @@
 (* pqref commands of the statistics model (property C04). *)
 From Coq Require Import NArith ZArith List String Bool.
-From Pq Require Import Base.Bytes Impl.Stats Extract.Sx.
+From Pq Require Import Base.Bytes Impl.Stats Format.Utf8 Extract.Sx.
 Import ListNotations.
 Open Scope string_scope.
 
@@ -191,7 +191,22 @@ Definition h_cat_minmax_old (a : list sx) : sx :=
   | _ => err "arity"
   end.
 
+(* (utf8_encode (cp ...)) -> #bytes ;  (cp_leb (cp ...) (cp ...)) -> 0/1  (lexicographic on code points) *)
+Definition h_utf8_encode (a : list sx) : sx :=
+  match a with
+  | [l] => match as_list_of as_N l with Some l => SB (utf8_encode l) | None => err "args" end
+  | _ => err "arity"
+  end.
+Definition h_cp_leb (a : list sx) : sx :=
+  match a with
+  | [x; y] => match as_list_of as_N x, as_list_of as_N y with
+              | Some x, Some y => sbool (lex_leb x y)
+              | _, _ => err "args" end
+  | _ => err "arity"
+  end.
+
 Definition table : list (string * handler) :=
   [("stats_of", h_stats_of); ("check_stats", h_check_stats); ("sorted_col", h_sorted_col);
    ("dec_stat", h_dec_stat); ("enc_stat", h_enc_stat); ("select", h_select);
-   ("cat_stats_of", h_cat_stats_of); ("cat_minmax_old", h_cat_minmax_old)].
+   ("cat_stats_of", h_cat_stats_of); ("cat_minmax_old", h_cat_minmax_old);
+   ("utf8_encode", h_utf8_encode); ("cp_leb", h_cp_leb)].
